@@ -21,6 +21,7 @@ def iexpr(e, alias=None): return ("expr", e, alias)
 def istar(q=None): return ("star", q)
 def rtable(schema, name, alias=None): return ("table", (schema, name), alias)
 def rderived(q, alias): return ("derived", q, alias)
+def rgroup(a, b): return ("group", a, b)
 def select(items, frm, comma=False, where=None): return ("select", items, frm, comma, where)
 def union(a, b): return ("union", a, b)
 def with_(name, cte, body): return ("with", name, cte, body)
@@ -50,6 +51,8 @@ def g_item(i):
 
 
 def g_rel(r):
+    if r[0] == "group":
+        return "(RGroup %s %s)" % (g_rel(r[1]), g_rel(r[2]))
     if r[0] == "table":
         return "(RTable %s %s)" % (g_tref(r[1]), g_opt(r[2]))
     return "(RDerived %s %s)" % (g_query(r[1]), coq_string(r[2]))
@@ -139,6 +142,15 @@ def t_alias(a, o):
     return ([("kw", o.kw("as"))] if o.use_as else []) + [("id", o.local(a))]
 
 
+def t_rel(r, o, ctes):
+    if r[0] == "table":
+        return t_tref(r[1], o, ctes) + (t_alias(r[2], o) if r[2] is not None else [])
+    if r[0] == "group":
+        return [("sym", "(")] + t_rel(r[1], o, ctes) + [("kw", o.kw("join"))] + t_rel(r[2], o, ctes) + \
+            [("kw", o.kw("on")), ("lit", "1"), ("sym", "="), ("lit", "1"), ("sym", ")")]
+    return [("sym", "(")] + t_query(r[1], o, ctes) + [("sym", ")")] + t_alias(r[2], o)
+
+
 def t_query(q, o, ctes):
     if q[0] == "select":
         out = [("kw", o.kw("select"))]
@@ -155,12 +167,7 @@ def t_query(q, o, ctes):
         for n, r in enumerate(q[2]):
             if n:
                 out += [("sym", ",")] if q[3] else [("kw", o.kw("join"))]
-            if r[0] == "table":
-                out += t_tref(r[1], o, ctes)
-                if r[2] is not None:
-                    out += t_alias(r[2], o)
-            else:
-                out += [("sym", "(")] + t_query(r[1], o, ctes) + [("sym", ")")] + t_alias(r[2], o)
+            out += t_rel(r, o, ctes)
             if n and not q[3]:
                 out += [("kw", o.kw("on")), ("lit", "1"), ("sym", "="), ("lit", "1")]
         if q[4] is not None:
@@ -213,7 +220,7 @@ def to_sql(s, o=None) -> str:
 TABLES = [("s1", "t1"), ("s1", "t2"), ("s2", "t3"), ("s2", "t1"), (None, "t4"), (None, "t5")]
 TARGETS = [("s3", "out1"), (None, "out2")]
 COLS = ["k", "x", "y", "z"]
-ALIASES = ["p", "q", "r", "u", "v", "w", "a1", "a2", "a3", "a4", "a5", "a6"]
+ALIASES = ["p", "q", "r", "u", "v", "w"] + ["a%d" % i for i in range(1, 40)]
 
 
 def gen_expr(r, scope_refs, depth):
@@ -264,12 +271,22 @@ def gen_select(r, depth, ctes, n_items=None, allow_star=True, used_tables=None, 
             qual = al or t[1]
             refs += [(qual, c2) for c2 in COLS]
     comma = allow_comma and n_rel > 1 and r.random() < 0.3
+    if not comma and n_rel == 3 and r.random() < 0.4:
+        # the first relation of a parenthesised join group loses its alias (recorded: K-C02-6), so in the
+        # guarded stream a group starts with an un-aliased base table
+        plain = lambda x: x[0] == "table" and x[2] is None and not (x[1][0] is None and x[1][1] in [c[0] for c in ctes])
+        if plain(rels[1]) and r.random() < 0.7:
+            rels = [rels[0], rgroup(rels[1], rels[2])]
+        elif plain(rels[0]):
+            rels = [rgroup(rels[0], rels[1]), rels[2]]
     # unqualified references: only with one relation in scope, or (unresolved case) several base tables
     if n_rel == 1:
         refs = refs + [(None, c2) for (_, c2) in refs]
     elif all_base and r.random() < 0.3:
         # unresolved references use names that are never referenced with a qualifier elsewhere (K-C02-5)
-        refs = refs + [(None, c2) for c2 in ("u1", "u2")]
+        # ... and that are not shared with another scope of the statement: unresolved columns of the same name
+        # from different scopes are merged into one node (recorded: K-C04-1)
+        refs = refs + [(None, "u%s%d" % (aliases[0], j)) for j in (1, 2)]
     items, names = [], []
     n_items = n_items or r.choice([1, 2, 2, 3])
     star_ok = allow_star and n_rel == 1 and rels[0][0] == "table" and not (rels[0][1][0] is None and rels[0][1][1] in [c[0] for c in ctes])
@@ -318,7 +335,9 @@ def gen_stmt(r, depth=2):
         return ("query", q)
     tgt = r.choice([t for t in TARGETS])
     if k == "insertcols" and names is not None:
-        return ("insert", tgt, ["c%d" % i for i in range(len(names))], q)
+        # column lists reuse select-item names in another order (the list wins by position, never by name)
+        cl = r.sample(COLS + ["m", "n"], len(names)) if r.random() < 0.6 else ["c%d" % i for i in range(len(names))]
+        return ("insert", tgt, cl, q)
     if k in ("insert", "insertcols"):
         return ("insert", tgt, None, q)
     return (k, tgt, q)
@@ -331,10 +350,16 @@ def local_names(s):
     def q_(q):
         if q[0] == "select":
             for rr in q[2]:
-                if rr[2] is not None:
-                    out.add(rr[2])
-                if rr[0] == "derived":
-                    q_(rr[1])
+                stack = [rr]
+                while stack:
+                    x = stack.pop()
+                    if x[0] == "group":
+                        stack += [x[1], x[2]]
+                        continue
+                    if x[2] is not None:
+                        out.add(x[2])
+                    if x[0] == "derived":
+                        q_(x[1])
             if q[4] is not None:
                 q_(q[4][1])
         elif q[0] == "union":
